@@ -2,6 +2,7 @@ package c19
 
 import (
 	"bytes"
+	"compress/gzip"
 	"crypto/tls"
 	"fmt"
 	"io"
@@ -10,6 +11,7 @@ import (
 	"net/http"
 	"net/http/httptest"
 	"net/url"
+	"regexp"
 	"strings"
 	"sync/atomic"
 	"syscall"
@@ -248,6 +250,12 @@ func TestC19ResponseHeaderTimeout(t *testing.T) {
 		// the kind of request must not matter (event streams take their own branch in the handler)
 		accept := rapid.SampledFrom([]string{"", "text/event-stream", "*/*", "text/html"}).Draw(t, "accept")
 		method := rapid.SampledFrom([]string{"GET", "GET", "POST", "HEAD"}).Draw(t, "method")
+		// other proxy features on the response path (compression) must not swallow the 504
+		acceptEncoding := rapid.SampledFrom([]string{"", "gzip", "gzip, deflate"}).Draw(t, "accept-encoding")
+		var pcfg config.Proxy
+		if rapid.Bool().Draw(t, "gzip-configured") {
+			pcfg.GZIPContentTypes = regexp.MustCompile(`^(text/.*|application/json)(;.*)?$`)
+		}
 		newReq := func() *http.Request {
 			var body io.Reader
 			if method == "POST" {
@@ -258,6 +266,9 @@ func TestC19ResponseHeaderTimeout(t *testing.T) {
 			if accept != "" {
 				req.Header.Set("Accept", accept)
 			}
+			if acceptEncoding != "" {
+				req.Header.Set("Accept-Encoding", acceptEncoding)
+			}
 			return req
 		}
 		run := func(T time.Duration) (int, string, time.Duration) {
@@ -265,6 +276,7 @@ func TestC19ResponseHeaderTimeout(t *testing.T) {
 			transport.SetConfig(cfg)
 			tg := &route.Target{Service: "svc", URL: upURL, TLSSkipVerify: kind == "skip-verify"}
 			p := &proxy.HTTPProxy{
+				Config:            pcfg,
 				Transport:         transport.NewTransport(nil),
 				InsecureTransport: transport.NewTransport(&tls.Config{InsecureSkipVerify: true}),
 				Lookup:            func(*http.Request) *route.Target { return tg },
@@ -274,7 +286,14 @@ func TestC19ResponseHeaderTimeout(t *testing.T) {
 			req := newReq()
 			start := time.Now()
 			p.ServeHTTP(rec, req)
-			return rec.Code, rec.Body.String(), time.Since(start)
+			body := rec.Body.String()
+			if rec.Header().Get("Content-Encoding") == "gzip" {
+				if zr, err := gzip.NewReader(rec.Body); err == nil {
+					b, _ := io.ReadAll(zr)
+					body = string(b)
+				}
+			}
+			return rec.Code, body, time.Since(start)
 		}
 		// more simultaneous requests than idle connections per host must not queue behind each other
 		if slow && rapid.Bool().Draw(t, "burst") {
@@ -286,7 +305,7 @@ func TestC19ResponseHeaderTimeout(t *testing.T) {
 			cfg.Proxy.ResponseHeaderTimeout = T
 			transport.SetConfig(cfg)
 			tg := &route.Target{Service: "svc", URL: upURL}
-			p := &proxy.HTTPProxy{Transport: transport.NewTransport(nil), InsecureTransport: transport.NewTransport(&tls.Config{InsecureSkipVerify: true}), Lookup: func(*http.Request) *route.Target { return tg }}
+			p := &proxy.HTTPProxy{Config: pcfg, Transport: transport.NewTransport(nil), InsecureTransport: transport.NewTransport(&tls.Config{InsecureSkipVerify: true}), Lookup: func(*http.Request) *route.Target { return tg }}
 			atomic.StoreInt64(&delay, int64(D))
 			const K = 16
 			type r struct {
@@ -314,7 +333,7 @@ func TestC19ResponseHeaderTimeout(t *testing.T) {
 		}
 		code, body, took := run(T)
 		hx.Eval()
-		ctx := fmt.Sprintf("responseheadertimeout=%v upstream delay=%v transport=%s request=%s Accept=%q (%s)", T, D, kind, method, accept, describe(cfg))
+		ctx := fmt.Sprintf("responseheadertimeout=%v upstream delay=%v transport=%s request=%s Accept=%q Accept-Encoding=%q gzip-configured=%v (%s)", T, D, kind, method, accept, acceptEncoding, pcfg.GZIPContentTypes != nil, describe(cfg))
 		if slow {
 			if code != 504 {
 				t.Fatalf("upstream answers after %v but the client got %d after %v, want 504\n%s", D, code, took, ctx)
